@@ -2,11 +2,17 @@
   Model driver for C19 (sql.py).  Line protocol: see DrvCore.  Imports only Mathlib-free files.
 
   Strings travel as single tokens: `^` is the empty string, `~` stands for a blank.
+  A request history on one object:  hist <k> <op>*k <database>  with ops  `qa <query>` (all periods),
+  `qr <name> <env>` (one run period), `qv <query>` (values), `ao` / `ai` / `rf` / `ri` (property reads:
+  available_outputs, available_outputs_info, reporting_frequency, run_period_indices), `bad` (a request
+  the code refuses); it is executed by the object state machine `Sql.step` (Model/SqlObj.lean) and
+  answers the observations of all steps, separated by `;;`.
   A database is written as   D <n> (idx group key name freq units)*  T <n> (idx year month day
   interval itype env)*  R <n> (timeIndex dictIndex value)*   with integer values (distinct ids).
 -/
 import Ladybug.DrvCore
 import Ladybug.Model.Sql
+import Ladybug.Model.SqlObj
 
 open Drv Sql
 
@@ -127,6 +133,58 @@ def parseQuery (ts : List String) : Option (NameQuery × List String) :=
 
 def ratsOf (ts : List String) : Option (List Rat) := ts.mapM fun t => (fun (i : Int) => (i : Rat)) <$> t.toInt?
 
+def showInfo (i : OutInfo) : String :=
+  enc i.name ++ "|" ++ enc i.objectType ++ "|" ++ enc i.units ++ "|" ++
+    (match i.dtype with
+     | .base n => "base:" ++ enc n
+     | .generic n => "generic:" ++ enc n)
+
+def showOut (uniform : Bool) : Out Rat → String
+  | .result r => showResult (.ok r)
+  | .values l => joinSp ["ok", showVals l]
+  | .names l => joinSp ("ok names" :: toString l.length :: l.map enc)
+  | .infos l => joinSp ("ok infos" :: toString l.length :: l.map showInfo)
+  | .freq f =>
+    let body := match f with
+      | none => "ok rf none"
+      | some (.label s) => "ok rf label " ++ enc s
+      | some (.steps n) => "ok rf steps " ++ toString n
+    if uniform then body else body ++ " ambiguous"
+  | .indices l => joinSp ["ok ri", toString l.length, showNats l]
+  | .error e => showErr e
+
+/-- Parse `k` history ops; the rest is the database. -/
+def parseOps : Nat → List String → Option (List Op × List String)
+  | 0, ts => some ([], ts)
+  | k + 1, "qa" :: ts => do
+    let (q, rest) ← parseQuery ts
+    let (ops, rest) ← parseOps k rest
+    pure (.queryAll q :: ops, rest)
+  | k + 1, "qv" :: ts => do
+    let (q, rest) ← parseQuery ts
+    let (ops, rest) ← parseOps k rest
+    pure (.values q :: ops, rest)
+  | k + 1, "qr" :: name :: env :: ts => do
+    let env ← env.toNat?
+    let (ops, rest) ← parseOps k ts
+    pure (.queryRunPeriod (dec name) env :: ops, rest)
+  | k + 1, "ao" :: ts => do
+    let (ops, rest) ← parseOps k ts
+    pure (.availableOutputs :: ops, rest)
+  | k + 1, "ai" :: ts => do
+    let (ops, rest) ← parseOps k ts
+    pure (.availableOutputsInfo :: ops, rest)
+  | k + 1, "rf" :: ts => do
+    let (ops, rest) ← parseOps k ts
+    pure (.reportingFrequency :: ops, rest)
+  | k + 1, "ri" :: ts => do
+    let (ops, rest) ← parseOps k ts
+    pure (.runPeriodIndices :: ops, rest)
+  | k + 1, "bad" :: ts => do
+    let (ops, rest) ← parseOps k ts
+    pure (.malformed :: ops, rest)
+  | _, _ => none
+
 def handle (toks : List String) : String :=
   match toks with
   | "part" :: n :: vals =>
@@ -194,6 +252,18 @@ def handle (toks : List String) : String :=
     | some (q, rest) =>
       match parseDB rest with
       | some db => joinSp ["ok", showVals (valuesByName db q)]
+      | none => "bad-op"
+    | none => "bad-op"
+  | "hist" :: k :: rest =>
+    match k.toNat? with
+    | some k =>
+      match parseOps k rest with
+      | some (ops, rest) =>
+        match parseDB rest with
+        | some db =>
+          let outs := (run jToKWh (Obj.fresh db) ops).2
+          String.intercalate " ;; " (outs.map (showOut (uniformLabel db.dict)))
+        | none => "bad-op"
       | none => "bad-op"
     | none => "bad-op"
   | "qrp" :: name :: env :: rest =>
